@@ -163,9 +163,11 @@ package dns
 //@   loop 1 invariant (zl.l.value == 1 ==> len(zl.l.token) > 0) && zl.cachedL == nil
 //@   exit sticky: old(zl.l.err) && old(zl.cachedL) == nil && !old(zl.nextL) ==> !ret1
 //@   exit nonempty: stri >= 0 && ret1 && ret0.value == 1 ==> len(ret0.token) > 0
+// a read error is final: once the reader has failed no further octet is handed out and the first error stays
 //@ func (*zlexer).readByte [C07]
 //@   opt no-safety
 //@   requires zl != nil
+//@   ensures sticky: old(zl.readErr) != nil ==> !ret1 && zl.readErr == old(zl.readErr)
 
 // per-type presentation parsers: no index, slice, nil or conversion panic on any token stream
 //@ iface RR.parse [C07]
@@ -220,8 +222,10 @@ package dns
 //@   requires lexinv: (c.l.value == 1 ==> len(c.l.token) > 0) && (c.cachedL != nil ==> (c.cachedL.value == 1 ==> len(c.cachedL.token) > 0))
 //@   loop * invariant (c.l.value == 1 ==> len(c.l.token) > 0) && (c.cachedL != nil ==> (c.cachedL.value == 1 ==> len(c.cachedL.token) > 0))
 //@   ensures lexinv: (c.l.value == 1 ==> len(c.l.token) > 0) && (c.cachedL != nil ==> (c.cachedL.value == 1 ==> len(c.cachedL.token) > 0))
+// a list of character-strings that ends inside an open quote is an error, not a record
 //@ func endingToTxtSlice [C07]
 //@   requires c != nil
+//@   exit balanced: ret1 == nil ==> !quote
 //@   loop 2 invariant 0 <= p && p <= len(l.token)
 //@   requires lexinv: (c.l.value == 1 ==> len(c.l.token) > 0) && (c.cachedL != nil ==> (c.cachedL.value == 1 ==> len(c.cachedL.token) > 0))
 //@   loop * invariant (c.l.value == 1 ==> len(c.l.token) > 0) && (c.cachedL != nil ==> (c.cachedL.value == 1 ==> len(c.cachedL.token) > 0))
